@@ -15,6 +15,13 @@ for f in d['findings']:
         print(f['commit'], f['property'])
 PY
   while read c p; do
+    case $c in
+      # later fix: commits rewrote the same lines, the reverse diff no longer applies: the defect is re-created by hand in
+      # mutants/c02-revert-052739d-*.patch and mutants/c01-revert-9562468-*.patch
+      052739d*|9562468*) echo "revert $c $p: covered by the hand-ported mutant"; continue;;
+      # the defect needed the lru_cache that fix 8933d14 removed: reverting it changes nothing any more
+      41970b9*) echo "revert $c $p: superseded by 8933d14 (nothing to re-create)"; continue;;
+    esac
     out=$(tools/try_patch.py --revert $c --skip-tests $p 2>&1 | tail -1)
     echo "revert $c $p: $out"
     echo "$out" | grep -q "detected_by=\['" || rc=1
